@@ -32,11 +32,11 @@ Definition ie_decl (field : str) (i : ienum) : enum_decl :=
   ED (ie_desc i) (ie_eff_prefix field i) (ie_options i) (ie_info i).
 
 (* the environment an enum declaration denotes for the rules of fields over it: prefix, the
-   explicit zero option (a first option ending in UNSPECIFIED), the other option names *)
+   explicit zero option (a first option spelling UNSPECIFIED / <prefix>UNSPECIFIED), the other option names *)
 Definition env_of_decl (e : enum_decl) : enum_env :=
   match ed_options e with
   | (n, _, _) :: r =>
-      if has_suffix unspecified n
+      if is_zero_opt (ed_prefix e) n
       then EE (ed_prefix e) (Some n) (map (fun o => fst (fst o)) r)
       else EE (ed_prefix e) None (map (fun o => fst (fst o)) (ed_options e))
   | [] => EE (ed_prefix e) None []
